@@ -12,10 +12,11 @@ PARALLEL = True
 MANIFEST = {
     'text': 'Kernel-checked theorems (PMV/Props/C13.lean, helper lemmas in PMV/Lemmas/Reduce*.lean) that every '
             'code-shaped reduction of the Lean model (sum, mean, max, min, argmax, argmin, median, sort, any, all, '
-            'Vector/Matrix sums, Scalar.maximum/minimum; each with its top-level branches size 0 / shape () / no mask / '
+            'Vector/Matrix sums, Scalar.maximum/minimum incl. Qube.broadcast, units, builtins= conversion; each with its top-level branches size 0 / shape () / no mask / '
             'all masked / mixed, written like the source) returns, for every lane length, rank, shape and legal axis '
             'argument, the same reduction over only the unmasked elements and is masked exactly when every contributing '
-            'element is masked, with the result shape obtained by removing the reduced axes and IndexError exactly for '
+            'element is masked, with the result shape obtained by removing the reduced axes, acceptance exactly for the '
+            'legal axis arguments (own _check_axis and NumPy\'s normalize_axis_tuple for any/all), IndexError for '
             'out-of-range or duplicated axes; tied to /repo on every run by a correspondence check that sends the same '
             'operands to the real polymath code and to the compiled model and diffs canonical outputs, with a numpy.ma '
             'oracle judging the real code directly.',
@@ -27,16 +28,23 @@ MANIFEST = {
             'scalar False mask stay unmasked (known finding KF-C13-1, recorded: the repair breaks the shipped test-suite).',
 }
 RULE = ('all leading shapes up to rank 3 with axis lengths 0-4 x every axis argument (None, each +/- axis, every tuple '
-        'of distinct axes incl. permuted/negative entries, plus out-of-range and duplicated ones) x 10 reductions x '
-        'int/float data with ties and extremes x mask patterns none/all/mixed/whole lanes masked x mask representations '
-        '(False, True, array, broadcast view); quick samples 2 (data, mask) draws per (shape, axis, op), thorough 8; '
-        'Vector/Matrix sum/mean, operands with derivatives, Scalar.maximum/minimum on broadcast operand lists; '
-        'non-trivial = at least one masked element or a zero-length axis; distinct = distinct request line')
+        'of distinct axes incl. permuted/negative entries and (), plus out-of-range, duplicated and mixed illegal ones; '
+        '15% as numpy.int64) x 10 reductions x int/float data with ties and extremes x mask patterns '
+        'none/all/mixed/whole lanes masked x mask representations (False, True, array, broadcast view) x operand '
+        'provenance (C, Fortran, read-only, strided, negative-stride, transposed, broadcast-view VALUE arrays; array masks '
+        'likewise); quick samples 2 (data, mask) draws per (shape, axis, op), thorough 8 x every representation; '
+        'Vector/Matrix/Pair sum/mean, Boolean.sum(value=), operands with derivatives; units and builtins=True/masked= on '
+        'every reduction; sequences of 2-6 reductions on ONE object after touching its cached views (antimask, wod, '
+        'corners, shrink, as_readonly); Scalar.maximum/minimum on 1-4 operands of different (also incompatible) shapes, '
+        'mixed int/float, with units; non-trivial = at least one masked element or a zero-length axis; distinct = '
+        'distinct request line')
 ASSUMPTIONS = ['no integer overflow in sums (the model computes in unbounded integers)',
                'argmax/argmin: no unmasked element equals the fill extreme (-inf/dtype min for argmax, +inf/dtype max '
                'for argmin) in a lane that also has masked elements (DESIGN 8.7: numpy.ma has the same tie)',
                'NumPy reduces an N-d array along axes lane by lane (Arr.reduce); lanes are enumerated row-major',
-               'any()/all(): empty lanes under a scalar False mask are excluded from the theorems (KF-C13-1)']
+               'any()/all(): empty lanes under a scalar False mask are excluded from the theorems (KF-C13-1)',
+               'builtins=True: the property is silent; the oracle only demands that the conversion does not change what '
+               'is observable (judge_builtin); the exact rule is in the model (asBuiltin, builtinsApplies) and compared']
 TRUSTED_EXTRA = ['numpy.ma as the reference for reductions over the unmasked elements (oracle only)']
 
 INF = 8 * 2 ** 1030            # wire code of +inf for float data (larger than 8 * any finite float64)
@@ -82,8 +90,13 @@ def exc(e):
     if isinstance(e, ValueError): return 'ValueError'
     return 'Other:' + type(e).__name__
 
-def pyaxis(ax):
-    return tuple(ax) if isinstance(ax, list) else ax
+def pyaxis(ax, npint=False):
+    """the Python axis argument; `npint`: integers as numpy.int64 instead of int"""
+    if isinstance(ax, list):
+        return tuple(np.int64(a) for a in ax) if npint else tuple(ax)
+    if npint and ax is not None:
+        return np.int64(ax)
+    return ax
 
 def axis_sx(ax):
     if ax is None: return 'N'
@@ -135,31 +148,138 @@ def out_scale(name, dtype):
 
 
 # ------------------------------------------------------------------ running the real code
+def with_prov(a, prov, nlead):
+    """the same array contents held differently in memory (`nlead` leading axes; trailing ones are item axes)"""
+    if prov in (None, 'c') or a.ndim == 0:
+        return a
+    if prov == 'f':
+        return np.asfortranarray(a)
+    if prov == 'ro':
+        b = a.copy(); b.setflags(write=False); return b
+    if prov == 'strided' and nlead >= 1:
+        big = np.zeros(tuple(2 * n for n in a.shape[:nlead]) + a.shape[nlead:], dtype=a.dtype)
+        v = big[tuple(slice(None, None, 2) for _ in range(nlead))]
+        v[...] = a
+        return v
+    if prov == 'rev' and nlead >= 1:
+        b = a[::-1].copy()
+        return b[::-1]
+    if prov == 'T' and nlead == a.ndim and a.ndim >= 2:
+        return np.ascontiguousarray(a.T).T
+    if prov == 'bview' and nlead >= 1 and a.shape[0] > 1 and a.size and (a == a[:1]).all():
+        return np.broadcast_to(a[:1].copy(), a.shape)
+    return a
+
+PROVS = ['c', 'f', 'ro', 'strided', 'rev', 'T', 'bview']
+
+def build_mask(case):
+    m = mk_mask(case['mask'], case['shape'])
+    if isinstance(m, np.ndarray) and not isinstance(case['mask'], dict):
+        m = with_prov(m, case.get('mprov'), len(case['shape']))
+    return m
+
+def units_of(case):
+    return Units.KM if case.get('units') == 'km' else None
+
 def build(case):
     shape = case['shape']
-    if case['op'] == 'bred':
+    nl = len(shape)
+    prov = case.get('prov')
+    if case['op'] in ('bred', 'ubred'):
         if case.get('cls') == 'Scalar':
-            return Scalar(np.array(case['ivals'], dtype='int64').reshape(shape), mk_mask(case['mask'], shape))
-        return Boolean(np.array(case['vals'], dtype=bool).reshape(shape), mk_mask(case['mask'], shape))
+            return Scalar(with_prov(np.array(case['ivals'], dtype='int64').reshape(shape), prov, nl), build_mask(case))
+        return Boolean(with_prov(np.array(case['vals'], dtype=bool).reshape(shape), prov, nl), build_mask(case))
     if case['op'] == 'vred':
         cls = CLASSES[case['cls']]
         vals = dec_vals(case['vals'], case['dtype'], list(shape) + list(case['item']))
-        return cls(vals, mk_mask(case['mask'], shape))
-    q = Scalar(dec_vals(case['vals'], case['dtype'], shape), mk_mask(case['mask'], shape))
+        return cls(with_prov(vals, prov, nl), build_mask(case))
+    q = Scalar(with_prov(dec_vals(case['vals'], case['dtype'], shape), prov, nl), build_mask(case), units=units_of(case))
     if case['op'] == 'dred':
         for key, d in zip('tuv', case['derivs']):
             q.insert_deriv(key, Scalar(dec_vals(d['vals'], 'float', shape), mk_mask(d['mask'], shape)))
     return q
 
+SENT = 'SENTINEL'
+
+def obs_any(r, name, dtype, units_expected=False):
+    """observation of a result that may have gone through builtins= conversion"""
+    if r is None:
+        return 'None'
+    if isinstance(r, str) and r == SENT:
+        return 'sentinel'
+    k = out_scale(name, dtype)
+    frac = name == 'mean'
+    if isinstance(r, (bool, np.bool_)):
+        return ['py', bool(r)]
+    if isinstance(r, (int, float, np.integer, np.floating)):
+        return ['py', enc_frac(r, k) if frac else enc(r, k)]
+    if isinstance(r, Boolean):
+        o = obs_b(r)
+    else:
+        o = obs_q(r, k, frac=frac)
+    u = r._units_
+    return ['obj', o[0], o[1], '-' if u is None else str(u.name or u)]
+
+def call_red(q, name, axis, bi):
+    kw = {}
+    if bi in ('B', 'S'):
+        kw['builtins'] = True
+    if bi == 'S':
+        kw['masked'] = SENT
+    return getattr(q, name)(axis=pyaxis(axis), **kw)
+
+def warm_up(q, warm):
+    """touch cached views before the measured calls"""
+    for w in warm or []:
+        if w == 'antimask': q.antimask
+        elif w == 'wod': q.wod
+        elif w == 'mask': np.asarray(q.mask)
+        elif w == 'readonly': q.as_readonly()
+        elif w == 'corners':
+            try: q.corners
+            except Exception: pass
+        elif w == 'shrink':
+            try: q.shrink(q.antimask)
+            except Exception: pass
+
+def bools_of(case):
+    """truth values of a Scalar operand (as_boolean)"""
+    return [v != 0 for v in case['vals']]
+
 def impl(case):
     op = case['op']
     try:
-        if op == 'maxmin':
-            args = [Scalar(dec_vals(o['vals'], o['dtype'], o['shape']), mk_mask(o['mask'], o['shape'])) for o in case['args']]
+        if op in ('maxmin', 'maxmin2'):
+            args = [Scalar(with_prov(dec_vals(o['vals'], o['dtype'], o['shape']), o.get('prov'), len(o['shape'])),
+                           mk_mask(o['mask'], o['shape']), units=Units.KM if case.get('units') == 'km' else None)
+                    for o in case['args']]
             r = getattr(Scalar, case['name'])(*args)
-            return obs_q(r, 8 if any(o['dtype'] == 'float' for o in case['args']) else 1)
+            k = 8 if any(o['dtype'] == 'float' for o in case['args']) else 1
+            if op == 'maxmin2':
+                o = obs_q(r, k)
+                return ['obj', o[0], o[1], '-' if r._units_ is None else str(r._units_.name)]
+            return obs_q(r, k)
+        if op == 'seq':
+            q = build(case)
+            warm_up(q, case.get('warm'))
+            outs = []
+            for st in case['steps']:
+                try:
+                    r = getattr(q, st['name'])(axis=pyaxis(st['axis']))
+                    outs.append(obs_b(r) if st['name'] in BREDS else
+                                obs_q(r, out_scale(st['name'], case['dtype']), frac=st['name'] == 'mean'))
+                except Exception as e:
+                    outs.append(exc(e))
+            return outs
+        if op == 'bsum':
+            q = Boolean(np.array(case['vals'], dtype=bool).reshape(case['shape']), mk_mask(case['mask'], case['shape']))
+            return obs_q(q.sum(axis=pyaxis(case['axis']), value=case['value']), 1)
         q = build(case)
-        r = getattr(q, case['name'])(axis=pyaxis(case['axis']))
+        if op in ('ured', 'ubred'):
+            warm_up(q, case.get('warm'))
+            r = call_red(q, case['name'], case['axis'], case['bi'])
+            return obs_any(r, case['name'], case.get('dtype', 'int'))
+        r = getattr(q, case['name'])(axis=pyaxis(case['axis'], case.get('npint', False)))
     except Exception as e:
         return exc(e)
     if op == 'bred':
@@ -193,7 +313,9 @@ def expect_red(name, vals, mbits, shape, ax, k, limits_):
         return None
     if name in ('argmax', 'argmin', 'sort') and isinstance(ax, list):
         return None                                  # NumPy itself takes no tuple here
-    if name in ('argmax', 'argmin', 'sort') and rank == 0:
+    if name in ('argmax', 'argmin') and rank == 0:
+        return None                                  # ValueError by design (scalar.py:929-930)
+    if name == 'sort' and rank == 0 and ax is not None:
         return None
     n = int(np.prod(shape, dtype=int))
     mask = np.array(mbits, dtype=bool).reshape(shape)
@@ -235,6 +357,22 @@ def expect_red(name, vals, mbits, shape, ax, k, limits_):
     res = getattr(ma, name)(axis=pyaxis(ax) if rank else None)
     return ma_obs(res, allm, rs, k, frac=(name == 'mean'))
 
+def expect_bred(name, bvals, mbits, shape, ax):
+    rank = len(shape)
+    vals = np.array(bvals, dtype=bool).reshape(shape)
+    mask = np.array(mbits, dtype=bool).reshape(shape)
+    if rank == 0:
+        return [[], ['M' if mask else bool(vals)]]
+    if not legal_axis(ax, rank):
+        return None
+    rs = reduced_shape(shape, ax)
+    axes = tuple(axes_of(ax, rank))
+    allm = np.all(mask, axis=axes)
+    ma = np.ma.array(vals, mask=mask)
+    res = getattr(ma, name)(axis=axes)
+    data = np.broadcast_to(np.ma.getdata(res), rs).ravel()
+    return [rs, ['M' if m else bool(v) for v, m in zip(data, np.broadcast_to(allm, rs).ravel())]]
+
 def expect(case):
     op = case['op']
     shape = case.get('shape')
@@ -272,20 +410,26 @@ def expect(case):
         frac = case['name'] == 'mean'
         return [rs, ['M' if m else [enc_frac(x, k) if frac else enc(x, k) for x in row] for row, m in zip(data, allm)]]
     if op == 'bred':
-        rank = len(shape)
-        vals = np.array(case['vals'], dtype=bool).reshape(shape)
-        mask = np.array(mask_bits(case['mask'], shape), dtype=bool).reshape(shape)
-        if rank == 0:
-            return [[], ['M' if mask else bool(vals)]]
-        if not legal_axis(case['axis'], rank):
+        return expect_bred(case['name'], case['vals'], mask_bits(case['mask'], shape), shape, case['axis'])
+    if op == 'bsum':
+        v01 = [int(bool(v) == bool(case['value'])) for v in case['vals']]
+        return expect_red('sum', np.array(v01, dtype='int64').reshape(shape), mask_bits(case['mask'], shape), shape,
+                          case['axis'], 1, None)
+    if op == 'seq':
+        res = []
+        for st in case['steps']:
+            if st['name'] in BREDS:
+                res.append(expect_bred(st['name'], bools_of(case), mask_bits(case['mask'], shape), shape, st['axis']))
+            else:
+                res.append(expect_red(st['name'], dec_vals(case['vals'], case['dtype'], shape),
+                                      mask_bits(case['mask'], shape), shape, st['axis'], scale_of(case['dtype']),
+                                      limits(case['dtype'])))
+        return res
+    if op == 'maxmin2':
+        e = expect(dict(case, op='maxmin'))
+        if e is None:
             return None
-        rs = reduced_shape(shape, case['axis'])
-        axes = tuple(axes_of(case['axis'], rank))
-        allm = np.all(mask, axis=axes)
-        ma = np.ma.array(vals, mask=mask)
-        res = getattr(ma, case['name'])(axis=axes)
-        data = np.broadcast_to(np.ma.getdata(res), rs).ravel()
-        return [rs, ['M' if m else bool(v) for v, m in zip(data, np.broadcast_to(allm, rs).ravel())]]
+        return ['obj', e[0], e[1], case.get('units') or '-']
     if op == 'maxmin':
         args = case['args']
         try:
@@ -304,7 +448,7 @@ def expect(case):
 
 def branch_of(case):
     shape = case.get('shape')
-    if case['op'] == 'maxmin':
+    if case['op'] in ('maxmin', 'maxmin2'):
         return 'n%d' % len(case['args'])
     n = int(np.prod(shape, dtype=int))
     bits = mask_bits(case['mask'], shape)
@@ -320,9 +464,12 @@ def axis_kind(ax, rank):
     if isinstance(ax, list): return 'tuple%d' % len(ax)
     return 'neg' if ax < 0 else 'pos'
 
+def empty_lane_corner(name, mask, shape, axis):
+    return (name in BREDS and mask == 'F' and bool(shape) and legal_axis(axis, len(shape))
+            and 0 in [shape[a] for a in axes_of(axis, len(shape))])
+
 def signature(case):
-    if case['op'] == 'bred' and case['mask'] == 'F' and case['shape'] and legal_axis(case['axis'], len(case['shape'])) \
-            and 0 in [case['shape'][a] for a in axes_of(case['axis'], len(case['shape']))]:
+    if case['op'] in ('bred', 'ubred') and empty_lane_corner(case['name'], case['mask'], case['shape'], case['axis']):
         return '%s:empty-lane:scalar-false-mask' % case['name']
     return '%s:%s:%s:%s' % (case['op'], case['name'], branch_of(case),
                             axis_kind(case.get('axis'), len(case.get('shape') or [])))
@@ -336,11 +483,64 @@ def close(a, b):
         return len(a) == len(b) and all(close(x, y) for x, y in zip(a, b))
     return type(a) == type(b) and a == b
 
+VALUE_OPS = ('sum', 'mean', 'max', 'min', 'median', 'sort')
+
+def judge_builtin(case, got, base):
+    """`base` = [shape, elems] demanded by the property for the plain call; `got` = observation of the call with
+    units and/or builtins=True.  The conversion must not change what is observable: a Python value only for a
+    single unmasked element, equal to it; an object with the same elements; the masked= value / None only when
+    nothing unmasked is there to report.  Units: kept by the value reductions, none for indices and Booleans."""
+    if isinstance(got, str) and got in ('None', 'sentinel'):
+        if any(e != 'M' for e in base[1]):
+            return 'returned %s although an unmasked result exists' % got
+        return None
+    if isinstance(got, list) and got and got[0] == 'py':
+        if case['bi'] == '-':
+            return 'Python value without builtins=True'
+        if base[0] != [] or base[1] == ['M']:
+            return 'Python value for a result that is not a single unmasked element'
+        return None if close(got[1], base[1][0]) else 'Python value differs'
+    if isinstance(got, list) and got and got[0] == 'obj':
+        if not close([got[1], got[2]], base):
+            return 'elements differ'
+        want = (case.get('units') or '-') if case['name'] in VALUE_OPS else '-'
+        if got[3] != want:
+            return 'units %s, expected %s' % (got[3], want)
+        if case['bi'] != '-' and base[0] == [] and base[1] != ['M'] and want == '-':
+            return 'object returned where builtins=True promises a Python value'
+        return None
+    return 'unexpected result %r' % (got,)
+
 def oracle(case):
+    op = case['op']
+    if op in ('ured', 'ubred'):
+        base = expect(dict(case, op='red' if op == 'ured' else 'bred'))
+        if base is None:
+            return None
+        got = impl(case)
+        why = judge_builtin(case, got, base)
+        if why:
+            return (signature(case), '%s %s axis=%r shape=%r units=%r builtins=%r: %s; got %s, plain reference %s'
+                    % (op, case['name'], case.get('axis'), case.get('shape'), case.get('units'), case['bi'], why,
+                       C.sx(got)[:300], C.sx(base)[:300]))
+        return None
     exp = expect(case)
     if exp is None:
         return None
     got = impl(case)
+    if op == 'seq':
+        for k, (g, e) in enumerate(zip(got, exp)):
+            if e is not None and not close(g, e):
+                st = case['steps'][k]
+                sig = ('%s:empty-lane:scalar-false-mask' % st['name']
+                       if empty_lane_corner(st['name'], case['mask'], case['shape'], st['axis'])
+                       else 'seq:%s:step%d:%s' % (st['name'], k, case.get('prov')))
+                return (sig,
+                        'step %d (%s axis=%r) of %d on one object (prov=%s, mask prov=%s, warm=%s) shape=%r: implementation '
+                        'returned %s, numpy.ma on the expanded operand gives %s'
+                        % (k, st['name'], st['axis'], len(exp), case.get('prov'), case.get('mprov'), case.get('warm'),
+                           case['shape'], C.sx(g)[:300], C.sx(e)[:300]))
+        return None
     if not close(got, exp):
         return (signature(case), '%s %s axis=%r shape=%r: implementation returned %s, numpy.ma on the expanded operand gives %s'
                 % (case['op'], case['name'], case.get('axis'), case.get('shape'), C.sx(got)[:300], C.sx(exp)[:300]))
@@ -354,8 +554,8 @@ def request(case):
         if case['name'] in ('argmax', 'argmin', 'sort') and isinstance(case['axis'], list) \
                 and int(np.prod(case['shape'], dtype=int)) == 0:
             return None                              # tuple axis never reaches NumPy on a zero-sized object: unspecified
-        if case['name'] == 'sort' and not case['shape']:
-            return None                              # sort of a shape-() object: NumPy has no axis to sort along; unspecified
+        if case['name'] == 'sort' and not case['shape'] and case['axis'] is not None:
+            return None                              # sort of a shape-() object along an axis it does not have: unspecified
         lo, hi = limits(case['dtype'])
         return ['c13', 'red', case['name'], case['shape'], case['vals'], mask_sx(case['mask'], case['shape']),
                 axis_sx(case['axis']), lo, hi]
@@ -368,6 +568,35 @@ def request(case):
     if op == 'bred':
         return ['c13', 'bred', case['name'], case['shape'], [bool(v) for v in case['vals']],
                 mask_sx(case['mask'], case['shape']), axis_sx(case['axis'])]
+    if op == 'ured':
+        base = request(dict(case, op='red'))
+        if base is None:
+            return None
+        return ['c13', 'ured'] + base[2:] + [case.get('units') or '-', case['bi']]
+    if op == 'ubred':
+        return ['c13', 'ubred', case['name'], case['shape'], [bool(v) for v in case['vals']],
+                mask_sx(case['mask'], case['shape']), axis_sx(case['axis']), case['bi']]
+    if op == 'bsum':
+        return ['c13', 'red', 'sum', case['shape'], [int(bool(v) == bool(case['value'])) for v in case['vals']],
+                mask_sx(case['mask'], case['shape']), axis_sx(case['axis']), I64MIN, I64MAX]
+    if op == 'seq':
+        reqs = []
+        for st in case['steps']:
+            if st['name'] in BREDS:
+                r = request({'op': 'bred', 'name': st['name'], 'shape': case['shape'], 'vals': bools_of(case),
+                             'mask': case['mask'], 'axis': st['axis']})
+            else:
+                r = request(dict(case, op='red', name=st['name'], axis=st['axis']))
+            if r is None:
+                return None
+            reqs.append(r[1:])
+        return ['c13', 'multi'] + reqs
+    if op == 'maxmin2':
+        args = case['args']
+        k = 8 if any(o['dtype'] == 'float' for o in args) else 1
+        return ['c13', 'maxmin2', case['name'],
+                [[o['shape'], [x * (k // scale_of(o['dtype'])) for x in o['vals']], mask_sx(o['mask'], o['shape'])]
+                 for o in args], case.get('units') or '-']
     if op == 'maxmin':
         args = case['args']
         try:
@@ -408,6 +637,7 @@ def axis_args(rank, rng):
         res.append([0, 0])
         res.append([0, -rank])                       # the same axis twice under two names
         res.append([0, rank])
+        res.append([0, 0, rank])                     # repeated AND out of range: NumPy reports the range error
     return res
 
 def mask_patterns(shape, rng, n_random=1):
@@ -458,16 +688,39 @@ def rand_vals(rng, n, dtype, name):
 
 def mk(case):
     case['req'] = request(case)
-    if case['op'] == 'maxmin':
+    op = case['op']
+    if op in ('maxmin', 'maxmin2'):
         nt = any(any(mask_bits(o['mask'], o['shape'])) for o in case['args'])
-        case['kind'] = 'maxmin:%s:n%d' % (case['name'], len(case['args']))
+        case['kind'] = '%s:%s:n%d' % (op, case['name'], len(case['args']))
+    elif op == 'seq':
+        shape = case['shape']
+        nt = True
+        case['kind'] = 'seq:%s:%s:%s:%d' % (case.get('prov'), case.get('mprov'), '+'.join(case.get('warm') or []) or '-',
+                                            len(case['steps']))
     else:
         shape = case['shape']
         nt = any(mask_bits(case['mask'], shape)) or 0 in shape
         rep = case['mask'] if isinstance(case['mask'], str) else ('view' if isinstance(case['mask'], dict) else 'arr')
-        case['kind'] = '%s:%s:%s:%s:%s' % (case['op'], case['name'], branch_of(case), axis_kind(case['axis'], len(shape)), rep)
+        extra = ''
+        if op in ('ured', 'ubred'):
+            extra = ':%s:%s' % (case.get('units') or '-', case['bi'])
+        if op == 'bsum':
+            case.setdefault('name', 'sum')
+        case['kind'] = '%s:%s:%s:%s:%s%s' % (op, case['name'], branch_of(case), axis_kind(case['axis'], len(shape)), rep, extra)
     case['nontrivial'] = bool(nt)
     return case
+
+def pick_prov(rng, shape, p=0.4):
+    if not shape or rng.random() > p:
+        return 'c'
+    return rng.choice(PROVS[1:])
+
+def tile_rows(vals, shape):
+    """make every row along axis 0 equal to the first (so that a broadcast view can hold the values)"""
+    if not shape or shape[0] <= 1 or not vals:
+        return vals
+    row = len(vals) // shape[0]
+    return list(vals[:row]) * shape[0]
 
 def pick_rep(bits, shape, rng):
     return rng.choice(mask_reps(bits, shape))
@@ -493,13 +746,18 @@ def gen_cases(rng, tier):
                 for (pname, bits), dtype in chosen:
                     for rep in ([pick_rep(bits, shape, rng)] if not thorough else mask_reps(bits, shape)):
                         if name in BREDS:
+                            prov, mprov = pick_prov(rng, shape), pick_prov(rng, shape, 0.25)
                             if rng.random() < 0.25:
                                 iv = [rng.choice([0, 0, 1, -2, 5]) for _ in range(n)]
+                                if prov == 'bview': iv = tile_rows(iv, shape)
                                 cases.append(mk({'op': 'bred', 'name': name, 'cls': 'Scalar', 'shape': shape, 'ivals': iv,
-                                                 'vals': [v != 0 for v in iv], 'mask': rep, 'axis': ax}))
+                                                 'vals': [v != 0 for v in iv], 'mask': rep, 'axis': ax,
+                                                 'prov': prov, 'mprov': mprov}))
                             else:
-                                cases.append(mk({'op': 'bred', 'name': name, 'shape': shape,
-                                                 'vals': [rng.random() < 0.5 for _ in range(n)], 'mask': rep, 'axis': ax}))
+                                bv = [rng.random() < 0.5 for _ in range(n)]
+                                if prov == 'bview': bv = tile_rows(bv, shape)
+                                cases.append(mk({'op': 'bred', 'name': name, 'shape': shape, 'vals': bv, 'mask': rep,
+                                                 'axis': ax, 'prov': prov, 'mprov': mprov}))
                         else:
                             vals = rand_vals(rng, n, dtype, name)
                             if name in ('sum', 'mean', 'median') and dtype == 'float':
@@ -507,8 +765,11 @@ def gen_cases(rng, tier):
                             if name == 'mean' and dtype == 'int':
                                 # keep the float quotient within 1e-6 of the exact mean (see enc_frac)
                                 vals = [max(min(v, 2 ** 31), -2 ** 31 - 1) for v in vals]
+                            prov, mprov = pick_prov(rng, shape), pick_prov(rng, shape, 0.25)
+                            if prov == 'bview': vals = tile_rows(vals, shape)
                             cases.append(mk({'op': 'red', 'name': name, 'shape': shape, 'dtype': dtype, 'vals': vals,
-                                             'mask': rep, 'axis': ax}))
+                                             'mask': rep, 'axis': ax, 'prov': prov, 'mprov': mprov,
+                                             'npint': rng.random() < 0.15}))
     # Vector / Matrix sums and means; operands with derivatives
     vshapes = [s for s in shapes if len(s) <= 2] + [[2, 1, 3], [0, 2, 2], [2, 3, 0]]
     for shape in vshapes:
@@ -534,6 +795,63 @@ def gen_cases(rng, tier):
                 vals = [rng.choice([-8, -3, 0, 1, 4, 8]) if dtype == 'float' else rng.randint(-3, 3) for _ in range(n)]
                 cases.append(mk({'op': 'dred', 'name': name, 'shape': shape, 'dtype': dtype, 'vals': vals,
                                  'mask': pick_rep(bits, shape, rng), 'axis': ax, 'derivs': derivs}))
+    # units and builtins=True; Boolean.sum
+    ushapes = [[], [1], [3], [0], [2, 2], [1, 1], [2, 0], [0, 3], [1, 3], [2, 1, 2]]
+    for shape in ushapes:
+        n = int(np.prod(shape, dtype=int))
+        rank = len(shape)
+        for ax in axis_args(rank, rng):
+            if not legal_axis(ax, rank) and rng.random() < 0.7:
+                continue
+            for name in REDS + BREDS:
+                if name in ('argmax', 'argmin', 'sort') and isinstance(ax, list):
+                    continue
+                for rep_i in range(3 if thorough else 1):
+                    pname, bits = rng.choice(mask_patterns(shape, rng))
+                    rep = pick_rep(bits, shape, rng)
+                    bi = rng.choice(['-', 'B', 'B', 'S']) if name != 'sort' else '-'
+                    warm = rng.choice([None, None, ['antimask'], ['wod', 'mask'], ['readonly'], ['antimask', 'corners']])
+                    if name in BREDS:
+                        cases.append(mk({'op': 'ubred', 'name': name, 'shape': shape,
+                                         'vals': [rng.random() < 0.5 for _ in range(n)], 'mask': rep, 'axis': ax, 'bi': bi,
+                                         'warm': warm, 'prov': pick_prov(rng, shape)}))
+                    else:
+                        dtype = rng.choice(['int', 'float'])
+                        vals = rand_vals(rng, n, dtype, name)
+                        if name in ('sum', 'mean', 'median'):
+                            vals = [max(min(v, 2 ** 23), -2 ** 23) for v in vals]
+                        cases.append(mk({'op': 'ured', 'name': name, 'shape': shape, 'dtype': dtype, 'vals': vals,
+                                         'mask': rep, 'axis': ax, 'units': rng.choice([None, 'km']), 'bi': bi,
+                                         'warm': warm, 'prov': pick_prov(rng, shape)}))
+            for value in (True, False):
+                pname, bits = rng.choice(mask_patterns(shape, rng))
+                cases.append(mk({'op': 'bsum', 'name': 'sum', 'shape': shape, 'vals': [rng.random() < 0.5 for _ in range(n)],
+                                 'mask': pick_rep(bits, shape, rng), 'axis': ax, 'value': value}))
+    # several reductions of ONE object (warm caches, operand provenance)
+    sshapes = [[3], [4], [2, 3], [3, 2], [4, 4], [2, 1, 3], [2, 3, 4], [3, 0], [0], [1, 4], [4, 1, 2]]
+    for _ in range(6000 if thorough else 900):
+        shape = rng.choice(sshapes)
+        n = int(np.prod(shape, dtype=int))
+        rank = len(shape)
+        dtype = rng.choice(['int', 'float'])
+        pname, bits = rng.choice(mask_patterns(shape, rng))
+        prov = rng.choice(PROVS)
+        vals = rand_vals(rng, n, dtype, 'sum')
+        vals = [max(min(v, 2 ** 23), -2 ** 23) for v in vals]
+        if prov == 'bview': vals = tile_rows(vals, shape)
+        steps = []
+        for _k in range(rng.randint(2, 5)):
+            name = rng.choice(REDS + BREDS)
+            legal = [a for a in axis_args(rank, rng) if legal_axis(a, rank)]
+            if name in ('argmax', 'argmin', 'sort'):
+                legal = [a for a in legal if not isinstance(a, list)]
+            steps.append({'name': name, 'axis': rng.choice(legal)})
+        if rng.random() < 0.5:
+            steps.append(dict(steps[0]))              # the first reduction once more, after the others
+        warm = rng.choice([None, ['antimask'], ['wod'], ['mask', 'antimask'], ['readonly'], ['corners'], ['shrink']])
+        cases.append(mk({'op': 'seq', 'shape': shape, 'dtype': dtype, 'vals': vals, 'mask': pick_rep(bits, shape, rng),
+                         'prov': prov, 'mprov': rng.choice(['c', 'c', 'f', 'strided', 'rev', 'ro']), 'warm': warm,
+                         'steps': steps}))
     # Scalar.maximum / minimum
     mshapes = [[], [1], [3], [2, 3], [2, 1], [0], [2, 0], [1, 3], [4]]
     for _ in range(1500 if thorough else 250):
@@ -550,7 +868,10 @@ def gen_cases(rng, tier):
             else:
                 vals = [v if abs(v) == INF or abs(v) < 2 ** 45 else (INF if v > 0 else -INF) for v in vals]
             args.append({'shape': shape, 'dtype': dtype, 'vals': vals, 'mask': pick_rep(bits, shape, rng)})
-        cases.append(mk({'op': 'maxmin', 'name': rng.choice(['maximum', 'minimum']), 'args': args}))
+        mname = rng.choice(['maximum', 'minimum'])
+        cases.append(mk({'op': 'maxmin', 'name': mname, 'args': args}))
+        args2 = [dict(o, prov=pick_prov(rng, o['shape'])) for o in args]
+        cases.append(mk({'op': 'maxmin2', 'name': mname, 'args': args2, 'units': rng.choice([None, 'km'])}))
     return cases
 
 
